@@ -155,6 +155,7 @@ fn scenario_for(prop: &str) -> Option<Box<dyn coord::Scenario>> {
         "C02" => Some(Box::new(scen::w1::W1Scenario { prop: "C02" })),
         "C03" => Some(Box::new(scen::w1::W1Scenario { prop: "C03" })),
         "C04" => Some(Box::new(scen::w2::W2Scenario { prop: "C04" })),
+        "C07" => Some(Box::new(scen::crash::CrashScenario)),
         _ => None,
     }
 }
